@@ -242,8 +242,9 @@ def probe_portfolio(spec):
             sd['out_r'] = None
             sd['out_r_error'] = repr(e)[:300]
         if not opts.get('no_solve'):
+            okw = dict(opts.get('optimize', {}))
             try:
-                res = ops.optimize()
+                res = ops.optimize(**okw)
             except Exception as e:
                 res = None
                 sd['solve_error'] = repr(e)[:300]
@@ -259,14 +260,14 @@ def probe_portfolio(spec):
                 iv = []
                 for p in ops.ops:
                     try:
-                        r1 = p.optimize()
+                        r1 = p.optimize(**okw)
                         iv.append(None if isinstance(r1, str) else float(r1.value))
                     except Exception:
                         iv.append(None)
                 sd['interval_values'] = iv
                 # the same split problem optimised once more: same result
                 try:
-                    r_again = ops.optimize()
+                    r_again = ops.optimize(**okw)
                     sd['again'] = r_again if isinstance(r_again, str) else {'value': float(r_again.value), 'x': [float(v) for v in r_again.x]}
                 except Exception as e:
                     sd['again'] = 'crash: ' + repr(e)[:200]
@@ -639,6 +640,9 @@ def probe_grid(spec):
                  'frame, integer index': lambda: pd.DataFrame(base, index=np.arange(tg.T)),
                  'frame, float index': lambda: pd.DataFrame(base, index=np.arange(tg.T, dtype=float)),
                  'frame from concatenated parts': lambda: pd.concat([pd.DataFrame(base).iloc[:tg.T // 2], pd.DataFrame(base).iloc[tg.T // 2:]]),
+                 # (pieces produced separately, each with its own default labels 0.., glued without ignore_index)
+                 'frame glued from separately numbered parts': lambda: pd.concat([pd.DataFrame({k: v[:tg.T // 2] for k, v in base.items()}),
+                                                                                  pd.DataFrame({k: v[tg.T // 2:] for k, v in base.items()})]),
                  'dict of series': lambda: {k: pd.Series(v) for k, v in base.items()},
                  'dict of lists': lambda: {k: list(v) for k, v in base.items()}}
         for nm, mk in forms.items():
